@@ -13,6 +13,9 @@ import MinizProof.Gen.All
 import MinizProof.Spec.Inflate
 import MinizProof.Lemmas.Finite
 import MinizProof.Lemmas.CoreSound
+import MinizProof.Lemmas.CoreConverse
+import MinizProof.Lemmas.SpecFuel
+import MinizProof.Props.C07
 set_option maxRecDepth 1000000
 open Fin'
 
@@ -60,9 +63,11 @@ proved from the refinement theorem (C03), the input-split machinery (C07) and un
 results. (2) The local acceptance conditions: each format violation the property lists sends the
 automaton to a failure state (`reject_*`), failure states stop the run with `Failed`
 (`failure_state_stops_run`), and stay failed (C05 `failed_is_sticky`).
-Not yet a theorem: the global converse "Done ⇒ the consumed bytes are a stream the reference decoder
-accepts"; it is checked on every run (mutated, truncated and targeted-invalid streams against the
-reference decoder's verdict) and by the call replay. -/
+(3) The global converse `done_implies_valid_raw` / `done_implies_valid_zlib` below ("Done ⇒ the consumed
+bytes are a stream the reference decoder accepts, and the written bytes are its plaintext"), for one
+call on a fresh decoder with a flat buffer. For other buffer modes and call schedules the C07 theorems
+reduce every schedule to the single call. Acceptance by the real automaton is also compared with the
+reference decoder on every run (mutated, truncated and targeted-invalid streams) and by the call replay. -/
 open Model.Core Spec in
 /-- A proper prefix of a valid raw stream is never rejected as corrupt: all of it is consumed and the
     answer is needs-more-input (has-more-output when the window is exactly full) if more input was
@@ -81,6 +86,162 @@ theorem proper_prefix_is_never_rejected (r : Regs) (a b out : Array UInt8) (outP
         (decompress r a out outPos budget flags).status = stHasMoreOutput
      else (decompress r a out outPos budget flags).status = stFailedCannotMakeProgress) :=
   proper_prefix_not_rejected r a b out outPos budget flags maxDist res hstart hshape hflat hz hstop hpos hspec hroom hproper
+
+section
+open Model.Core Spec
+/-! ### The global converse: `Done` ⇒ valid
+
+For EVERY input, output buffer, window and flag word (flat buffer, one call on a decoder at `Start`):
+if the model of `decompress_with_limit` reports `Done`, the RFC reference decoder accepts the input,
+the accepted stream is what was consumed, and its plaintext is what was written. Together with the
+refinement theorems of C03 this makes `Done` EQUIVALENT to "the reference decoder accepts and the
+plaintext fits the granted window". Proved by contraposition along the reference decoder's own control
+structure (`Lemmas/CoreConverse`): the forward lemmas carry the model over the accepted part of the
+stream; for each of the ways the reference decoder stops — 13 reject reasons, the data ending inside any
+field, symbol, stored body or trailer — and for each place the granted window can run out (literal,
+match, stored bytes), the model's next transitions end in a failure state, a starved exit or a full
+window, never in `Done`. Two facts carry the places where the real decoder is more permissive than its
+own checks suggest: a COMPLETE code-length code decodes every bit pattern (Kraft argument,
+`decodeSym_complete`), so the filler symbol the real decoder would accept there never arises; and the
+reference decoder never stops for lack of fuel (`Spec.inflateSpec_ne_fuel`), so "not accepted" means
+rejected or truncated. -/
+
+/-- DONE ⇒ VALID, raw DEFLATE. -/
+theorem done_implies_valid_raw (r : Regs) (inp out : Array UInt8) (outPos budget flags : Nat)
+    (hstart : r.state = sStart) (hshape : r.rawHeader.size = 4 ∧ r.tableSizes.size = 3 ∧ r.lenCodes.size = 512)
+    (hflat : hasFlag flags fNonWrapping = true) (hz : hasFlag flags fParseZlib = false)
+    (hstop : hasFlag flags fStopOnBlockBoundary = false) (hpos : outPos ≤ out.size)
+    (hdone : (decompress r inp out outPos budget flags).status = stDone) :
+    ∃ res, inflateSpec (out.extract 0 outPos) 32768 inp 0 = .accept res ∧
+      (decompress r inp out outPos budget flags).written = res.out.size ∧
+      (decompress r inp out outPos budget flags).consumed = (res.bitsUsed + 7) / 8 ∧
+      (∀ i, i < res.out.size → (decompress r inp out outPos budget flags).out[outPos + i]? = res.out[i]?) := by
+  rcases done_raw_flat r inp out outPos budget flags hstart hshape hflat hz hstop hpos hdone with ⟨res, hacc, hroom⟩ | hfuel
+  · have := refine_raw_flat r inp out outPos budget flags 32768 res hstart hshape hflat hz hstop hpos hacc hroom
+    exact ⟨res, hacc, this.2.1, this.2.2.1, this.2.2.2⟩
+  · exact absurd hfuel (inflateSpec_ne_fuel _ _ _ _)
+
+/-- `Done` is EQUIVALENT to: the reference decoder accepts and the plaintext fits the granted window. -/
+theorem done_iff_valid_raw (r : Regs) (inp out : Array UInt8) (outPos budget flags : Nat)
+    (hstart : r.state = sStart) (hshape : r.rawHeader.size = 4 ∧ r.tableSizes.size = 3 ∧ r.lenCodes.size = 512)
+    (hflat : hasFlag flags fNonWrapping = true) (hz : hasFlag flags fParseZlib = false)
+    (hstop : hasFlag flags fStopOnBlockBoundary = false) (hpos : outPos ≤ out.size) :
+    (decompress r inp out outPos budget flags).status = stDone ↔
+    ∃ res, inflateSpec (out.extract 0 outPos) 32768 inp 0 = .accept res ∧
+      outPos + res.out.size ≤ min (outPos + budget) out.size := by
+  constructor
+  · intro hdone
+    rcases done_raw_flat r inp out outPos budget flags hstart hshape hflat hz hstop hpos hdone with h | hfuel
+    · exact h
+    · exact absurd hfuel (inflateSpec_ne_fuel _ _ _ _)
+  · rintro ⟨res, hacc, hroom⟩
+    exact (refine_raw_flat r inp out outPos budget flags 32768 res hstart hshape hflat hz hstop hpos hacc hroom).1
+
+/-- The property as stated: a raw stream the reference decoder does not accept is never reported `Done`. -/
+theorem invalid_raw_stream_is_never_done (r : Regs) (inp out : Array UInt8) (outPos budget flags : Nat)
+    (hstart : r.state = sStart) (hshape : r.rawHeader.size = 4 ∧ r.tableSizes.size = 3 ∧ r.lenCodes.size = 512)
+    (hflat : hasFlag flags fNonWrapping = true) (hz : hasFlag flags fParseZlib = false)
+    (hstop : hasFlag flags fStopOnBlockBoundary = false) (hpos : outPos ≤ out.size)
+    (hinvalid : ∀ res, inflateSpec (out.extract 0 outPos) 32768 inp 0 ≠ .accept res) :
+    (decompress r inp out outPos budget flags).status ≠ stDone := by
+  intro hdone
+  obtain ⟨res, hacc, _⟩ := done_implies_valid_raw r inp out outPos budget flags hstart hshape hflat hz hstop hpos hdone
+  exact hinvalid res hacc
+
+/-- DONE ⇒ VALID, zlib format: header, body and — unless the caller asked to ignore it — the Adler-32
+    trailer. -/
+theorem done_implies_valid_zlib (r : Regs) (inp out : Array UInt8) (outPos budget flags : Nat)
+    (hstart : r.state = sStart) (hshape : r.rawHeader.size = 4 ∧ r.tableSizes.size = 3 ∧ r.lenCodes.size = 512)
+    (hflat : hasFlag flags fNonWrapping = true) (hz : hasFlag flags fParseZlib = true)
+    (hstop : hasFlag flags fStopOnBlockBoundary = false) (hpos : outPos ≤ out.size)
+    (hdone : (decompress r inp out outPos budget flags).status = stDone) :
+    ∃ zr, zlibSpec (out.extract 0 outPos) 32768 inp (!hasFlag flags fIgnoreAdler) = .accept zr ∧
+      (decompress r inp out outPos budget flags).written = zr.inner.out.size ∧
+      (decompress r inp out outPos budget flags).consumed = zr.bytesUsed ∧
+      (∀ i, i < zr.inner.out.size → (decompress r inp out outPos budget flags).out[outPos + i]? = zr.inner.out[i]?) := by
+  rcases done_zlib_flat r inp out outPos budget flags hstart hshape hflat hz hstop hpos hdone with ⟨zr, hacc, hroom⟩ | hfuel
+  · obtain ⟨cmf, flg, a, b, c, d, h0, h1, hv, hi, ha, hb, hc, hd, _, hused⟩ := zlibSpec_inv hacc
+    have h := refine_zlib_flat r inp out outPos budget flags 32768 zr.inner cmf flg a b c d hstart hshape hflat hz hstop
+      hpos h0 h1 hv hi ha hb hc hd hroom
+    exact ⟨zr, hacc, h.2.1, by rw [h.2.2.1, hused], h.2.2.2⟩
+  · exact absurd hfuel (inflateSpec_ne_fuel _ _ _ _)
+
+/-- … a zlib stream the reference decoder does not accept is never reported `Done`. -/
+theorem invalid_zlib_stream_is_never_done (r : Regs) (inp out : Array UInt8) (outPos budget flags : Nat)
+    (hstart : r.state = sStart) (hshape : r.rawHeader.size = 4 ∧ r.tableSizes.size = 3 ∧ r.lenCodes.size = 512)
+    (hflat : hasFlag flags fNonWrapping = true) (hz : hasFlag flags fParseZlib = true)
+    (hstop : hasFlag flags fStopOnBlockBoundary = false) (hpos : outPos ≤ out.size)
+    (hinvalid : ∀ zr, zlibSpec (out.extract 0 outPos) 32768 inp (!hasFlag flags fIgnoreAdler) ≠ .accept zr) :
+    (decompress r inp out outPos budget flags).status ≠ stDone := by
+  intro hdone
+  obtain ⟨zr, hacc, _⟩ := done_implies_valid_zlib r inp out outPos budget flags hstart hshape hflat hz hstop hpos hdone
+  exact hinvalid zr hacc
+
+/-- UNDER ANY CALL SCHEDULE (with C07): a fresh decoder fed a raw stream in any chunks with any
+    non-shrinking output grants (flat buffer), whose calls before the last were suspended and whose
+    last call reports `Done`, has been fed a stream the reference decoder accepts; the calls together
+    wrote exactly its plaintext and consumed exactly ⌈bits/8⌉ bytes. -/
+theorem done_under_any_schedule_implies_valid (flags : Nat) (calls : List (Array UInt8 × Nat)) (out : Array UInt8)
+    (c : Array UInt8) (g : Nat)
+    (hflat : hasFlag flags fNonWrapping = true) (hz : hasFlag flags fParseZlib = false)
+    (hstop : hasFlag flags fStopOnBlockBoundary = false)
+    (hmono : grantsMono ((c, g) :: calls))
+    (hsus : ∀ r ∈ (runCalls flags 0 {} out 0 #[] ((c, g) :: calls)).dropLast, suspended r)
+    (last : Res) (hlast : (runCalls flags 0 {} out 0 #[] ((c, g) :: calls)).getLast? = some last)
+    (hdone : last.status = stDone) :
+    ∃ res, inflateSpec (out.extract 0 0) 32768 (#[] ++ catChunks ((c, g) :: calls)) 0 = .accept res ∧
+      sumWritten (runCalls flags 0 {} out 0 #[] ((c, g) :: calls)) = res.out.size ∧
+      sumConsumed (runCalls flags 0 {} out 0 #[] ((c, g) :: calls)) = (res.bitsUsed + 7) / 8 ∧
+      (∀ i, i < res.out.size → last.out[0 + i]? = res.out[i]?) := by
+  have hgeo : badGeometry flags out.size 0 = false := by
+    simp [badGeometry, hflat]
+  obtain ⟨h1, h2, h3, h4, _⟩ := C07.any_number_of_calls_equal_one_call flags 0 calls {} out 0 #[] c g Bnd_fresh hgeo hmono hsus last hlast
+  have hone : (decompress {} (#[] ++ catChunks ((c, g) :: calls)) out 0 (0 + lastGrant ((c, g) :: calls) - 0) flags).status = stDone := by
+    rw [h1]; exact hdone
+  obtain ⟨res, hacc, o2, o3, o4⟩ := done_implies_valid_raw {} _ out 0 _ flags rfl ⟨rfl, rfl, rfl⟩ hflat hz hstop (Nat.zero_le _) hone
+  refine ⟨res, hacc, by rw [← h3]; exact o2, ?_, fun i hi => by rw [← h2]; exact o4 i hi⟩
+  rw [← h4 (by rw [hone]; decide)]; exact o3
+
+/-- The same for the zlib format (header, body and trailer cut anywhere). -/
+theorem done_under_any_schedule_implies_valid_zlib (flags : Nat) (calls : List (Array UInt8 × Nat)) (out : Array UInt8)
+    (c : Array UInt8) (g : Nat)
+    (hflat : hasFlag flags fNonWrapping = true) (hz : hasFlag flags fParseZlib = true)
+    (hstop : hasFlag flags fStopOnBlockBoundary = false)
+    (hmono : grantsMono ((c, g) :: calls))
+    (hsus : ∀ r ∈ (runCalls flags 0 {} out 0 #[] ((c, g) :: calls)).dropLast, suspended r)
+    (last : Res) (hlast : (runCalls flags 0 {} out 0 #[] ((c, g) :: calls)).getLast? = some last)
+    (hdone : last.status = stDone) :
+    ∃ zr, zlibSpec (out.extract 0 0) 32768 (#[] ++ catChunks ((c, g) :: calls)) (!hasFlag flags fIgnoreAdler) = .accept zr ∧
+      sumWritten (runCalls flags 0 {} out 0 #[] ((c, g) :: calls)) = zr.inner.out.size ∧
+      sumConsumed (runCalls flags 0 {} out 0 #[] ((c, g) :: calls)) = zr.bytesUsed ∧
+      (∀ i, i < zr.inner.out.size → last.out[0 + i]? = zr.inner.out[i]?) := by
+  have hgeo : badGeometry flags out.size 0 = false := by
+    simp [badGeometry, hflat]
+  obtain ⟨h1, h2, h3, h4, _⟩ := C07.any_number_of_calls_equal_one_call flags 0 calls {} out 0 #[] c g Bnd_fresh hgeo hmono hsus last hlast
+  have hone : (decompress {} (#[] ++ catChunks ((c, g) :: calls)) out 0 (0 + lastGrant ((c, g) :: calls) - 0) flags).status = stDone := by
+    rw [h1]; exact hdone
+  obtain ⟨zr, hacc, o2, o3, o4⟩ := done_implies_valid_zlib {} _ out 0 _ flags rfl ⟨rfl, rfl, rfl⟩ hflat hz hstop (Nat.zero_le _) hone
+  refine ⟨zr, hacc, by rw [← h3]; exact o2, ?_, fun i hi => by rw [← h2]; exact o4 i hi⟩
+  rw [← h4 (by rw [hone]; decide)]; exact o3
+
+/-- The reference decoder's verdict is never "out of fuel": not accepted = rejected or truncated. -/
+theorem reference_decoder_always_decides (pre : Array UInt8) (maxDist : Nat) (data : Array UInt8) (startBit : Nat) :
+    inflateSpec pre maxDist data startBit ≠ .fuel ∧ ∀ chk, zlibSpec pre maxDist data chk ≠ .fuel :=
+  ⟨inflateSpec_ne_fuel pre maxDist data startBit, fun chk => zlibSpec_ne_fuel pre maxDist data chk⟩
+
+/-- A complete code-length code decodes every bit pattern. -/
+theorem complete_code_decodes_everything (lens : Array Nat) (hv : codeValid .clen lens = true) (data : Array UInt8)
+    (pos : Nat) : decodeSym (mkCode lens) data pos ≠ .invalid :=
+  decodeSym_complete hv data pos
+
+/-- the hypotheses are those of a fresh decoder -/
+example : ({} : Regs).state = sStart ∧ ({} : Regs).rawHeader.size = 4 ∧ ({} : Regs).tableSizes.size = 3 ∧
+    ({} : Regs).lenCodes.size = 512 := by decide
+/-- the invalid stream of seeded change C04d (a code-length code with one 1-bit symbol) is rejected by the reference decoder -/
+example : (match inflateSpec #[] 32768 #[0x05, 0xe0, 0x01, 0x00, 0x00, 0x00, 0x00, 0x00, 0x10, 0xb4, 0xf9, 0x9f, 0x02, 0x01] 0 with
+    | .reject .clenCode => true | _ => false) = true := by
+  decide +kernel
+end
 
 section
 open Model.Core Spec
